@@ -20,13 +20,17 @@ def check(ctx):
     from . import core7
 
     core7.retired_stay(ctx, "C04")
+    from . import core9
+
+    core9.enable_call_defaults(ctx, "C04")
     core7.group_has_enclosing(ctx, "C04")
 
 
 MUTANTS = [
     ("ungrouped-simultaneous-transactions-dropped", M, "        for transaction in all_simultaneous:\n            method = Method(", "        for transaction in set[TBody]().union(*final_simultaneous):\n            method = Method("),
-    ("group-without-enclosing-built", M, "                    if dep in transaction.simultaneous_list\n                ):\n                    continue\n", "                    if dep in transaction.simultaneous_list\n                ):\n                    pass\n"),
-    ("enclosing-test-any-dependency", M, "                    if dep in transaction.simultaneous_list\n", ""),
+    ("group-without-enclosing-built", M, "                    if dep in body.simultaneous_list\n                ):\n                    continue\n", "                    if dep in body.simultaneous_list\n                ):\n                    pass\n"),
+    ("enclosing-test-any-dependency", M, "                    if dep in body.simultaneous_list\n", ""),
+    ("enclosing-test-members-only", M, "                    for body in method_map.ready_for_transaction(transaction)\n                    for dep in ready_dependencies[body]\n                    if dep in body.simultaneous_list\n", "                    for dep in ready_dependencies[transaction]\n                    if dep in transaction.simultaneous_list\n"),
     ("enclosing-test-polarity", M, "not group & frozenset(method_map.transactions_for(dep))", "group & frozenset(method_map.transactions_for(dep))"),
     ("method-run-all-callers", M, "m.d.comb += method.run.eq(granted.any())", "m.d.comb += method.run.eq(granted.all())"),
     ("method-run-ignores-enable", M, "transaction.run & Cat(call.enable for call in method_map.info_by_call[(transaction, method)]).any()", "transaction.run"),
